@@ -91,8 +91,30 @@ impl<F: Fn(pipe::SimplexDirection, usize) + Send + Sync> LeftPipe<F> {
             .get_mut(&forwarder::UdpDatagramMeta::from(meta))
         {
             conn.register_outgoing_packet();
+            #[cfg(trusttunnel_verif)]
+            crate::verif_emit!(
+                "FlowLookup",
+                "\"s\":\"{}\",\"d\":\"{}\",\"hit\":true",
+                meta.source,
+                meta.destination
+            );
+            #[cfg(trusttunnel_verif)]
+            crate::verif_emit!(
+                "Outgoing",
+                "\"s\":\"{}\",\"d\":\"{}\",\"pend\":{}",
+                meta.source,
+                meta.destination,
+                conn.verif_pending()
+            );
             return Ok(());
         }
+        #[cfg(trusttunnel_verif)]
+        crate::verif_emit!(
+            "FlowLookup",
+            "\"s\":\"{}\",\"d\":\"{}\",\"hit\":false",
+            meta.source,
+            meta.destination
+        );
 
         let is_plain_dns = meta.destination.port() == net_utils::PLAIN_DNS_PORT_NUMBER;
         self.shared.udp_connections.lock().unwrap().insert(
@@ -106,11 +128,24 @@ impl<F: Fn(pipe::SimplexDirection, usize) + Send + Sync> LeftPipe<F> {
                 )),
             },
         );
+        #[cfg(trusttunnel_verif)]
+        crate::verif_emit!(
+            "FlowInsert",
+            "\"s\":\"{}\",\"d\":\"{}\",\"dns\":{}",
+            meta.source,
+            meta.destination,
+            is_plain_dns
+        );
 
+        #[cfg(trusttunnel_verif)]
+        let mut verif_outcome =
+            crate::verif::udp::Outcome::new("NewConn", meta.source, meta.destination);
         self.shared
             .forwarder_shared
             .on_new_udp_connection(meta)
             .await?;
+        #[cfg(trusttunnel_verif)]
+        verif_outcome.ok();
 
         if let Some(c) = self
             .shared
@@ -121,6 +156,19 @@ impl<F: Fn(pipe::SimplexDirection, usize) + Send + Sync> LeftPipe<F> {
         {
             c.register_outgoing_packet()
         }
+        #[cfg(trusttunnel_verif)]
+        crate::verif_emit!(
+            "Outgoing",
+            "\"s\":\"{}\",\"d\":\"{}\",\"pend\":{}",
+            meta.source,
+            meta.destination,
+            self.shared
+                .udp_connections
+                .lock()
+                .unwrap()
+                .get(&forwarder::UdpDatagramMeta::from(meta))
+                .map_or(-2, |c| c.verif_pending())
+        );
         Ok(())
     }
 }
@@ -131,6 +179,18 @@ impl<F: Fn(pipe::SimplexDirection, usize) + Send + Sync> RightPipe<F> {
             let datagram = match self.source.read().await? {
                 forwarder::UdpDatagramReadStatus::Read(x) => x,
                 forwarder::UdpDatagramReadStatus::UdpClose(meta, e) => {
+                    #[cfg(trusttunnel_verif)]
+                    crate::verif_emit!(
+                        "FlowRemove",
+                        "\"s\":\"{}\",\"d\":\"{}\",\"cause\":\"close\",\"found\":{}",
+                        meta.source,
+                        meta.destination,
+                        self.shared
+                            .udp_connections
+                            .lock()
+                            .unwrap()
+                            .contains_key(&meta)
+                    );
                     if let Some(c) = self.shared.udp_connections.lock().unwrap().remove(&meta) {
                         log_id!(
                             debug,
@@ -158,9 +218,35 @@ impl<F: Fn(pipe::SimplexDirection, usize) + Send + Sync> RightPipe<F> {
 
             let reversed = meta.reversed();
             let x = self.on_udp_packet(&reversed);
+            #[cfg(trusttunnel_verif)]
+            crate::verif_emit!(
+                "Incoming",
+                "\"s\":\"{}\",\"d\":\"{}\",\"done\":{},\"pend\":{}",
+                reversed.source,
+                reversed.destination,
+                x == UdpConnectionStatus::Done,
+                self.shared
+                    .udp_connections
+                    .lock()
+                    .unwrap()
+                    .get(&reversed)
+                    .map_or(-2, |c| c.verif_pending())
+            );
             match x {
                 UdpConnectionStatus::Continue => (),
                 UdpConnectionStatus::Done => {
+                    #[cfg(trusttunnel_verif)]
+                    crate::verif_emit!(
+                        "FlowRemove",
+                        "\"s\":\"{}\",\"d\":\"{}\",\"cause\":\"dns\",\"found\":{}",
+                        reversed.source,
+                        reversed.destination,
+                        self.shared
+                            .udp_connections
+                            .lock()
+                            .unwrap()
+                            .contains_key(&reversed)
+                    );
                     if let Some(c) = self
                         .shared
                         .udp_connections
@@ -181,6 +267,16 @@ impl<F: Fn(pipe::SimplexDirection, usize) + Send + Sync> RightPipe<F> {
             None => UdpConnectionStatus::Continue,
             Some(conn) => conn.register_incoming_packet(),
         }
+    }
+}
+
+#[cfg(trusttunnel_verif)]
+impl UdpConnection {
+    /// pending plain-DNS queries of the flow, -1 if it is not a plain-DNS flow
+    fn verif_pending(&self) -> i64 {
+        self.plain_dns_info
+            .as_ref()
+            .map_or(-1, |i| i.pending_queries as i64)
     }
 }
 
@@ -266,9 +362,27 @@ impl<F: Fn(pipe::SimplexDirection, usize) + Send + Sync> DuplexPipe<F> {
             .filter(|(_, conn)| conn.last_activity < last_unexpired_timestamp)
             .map(|(meta, c)| (*meta, c.log_id.clone()))
             .collect();
+        #[cfg(trusttunnel_verif)]
+        crate::verif_emit!(
+            "Tick",
+            "\"tracked\":{},\"expired\":[{}]",
+            connections.len(),
+            expired
+                .iter()
+                .map(|(m, _)| format!("{{\"s\":\"{}\",\"d\":\"{}\"}}", m.source, m.destination))
+                .collect::<Vec<_>>()
+                .join(",")
+        );
 
         for (meta, id) in expired {
             connections.remove(&meta);
+            #[cfg(trusttunnel_verif)]
+            crate::verif_emit!(
+                "FlowRemove",
+                "\"s\":\"{}\",\"d\":\"{}\",\"cause\":\"expired\",\"found\":true",
+                meta.source,
+                meta.destination
+            );
             self.right_pipe
                 .shared
                 .forwarder_shared
